@@ -392,9 +392,8 @@ func (c *Cluster) pushPingMetrics(ctx context.Context) {
 // Alerts returns the last alerts recorded by this cluster peer with the most
 // recent first.
 func (c *Cluster) Alerts() []api.Alert {
-	alerts := make([]api.Alert, len(c.alerts))
-
 	c.alertsMux.Lock()
+	alerts := make([]api.Alert, len(c.alerts))
 	{
 		total := len(alerts)
 		for i, a := range c.alerts {
